@@ -270,11 +270,14 @@ pub fn gen_plan(property: &str, seed: u64, index: u64, tier: Tier) -> Plan {
             start = s;
             scenario = "count-positions";
             let crowded = start.piece_count() > 16;
-            let maxd: usize = match (thorough, crowded) {
-                (false, true) => 2,
-                (false, false) => 3,
-                (true, true) => 3,
-                (true, false) => 4,
+            let sparse = start.piece_count() <= 7;
+            let maxd: usize = match (thorough, crowded, sparse) {
+                (false, _, true) => 4,
+                (true, _, true) => 5,
+                (false, true, _) => 2,
+                (false, false, _) => 3,
+                (true, true, _) => 3,
+                (true, false, _) => 4,
             };
             let _ = kind;
             // a used generator: walk a little, count at several depths (the CLI driver's reuse pattern)
